@@ -295,4 +295,137 @@ example : ((RunVar.new : RunVar ℝ).addAll [0, 1, 3]).mean = 4 / 3 ∧
     ((RunVar.new : RunVar ℝ).addAll [0, 1, 3]).count = 3 := by
   norm_num [RunVar.addAll, RunVar.add, RunVar.new]
 
+/-! ## T5: the estimator `DiagEst` -/
+
+/-- feed draws together with their gradients `g y` (`update_estimators` for a run of good draws) -/
+noncomputable def feed (g : ℝ → ℝ) (e : DiagEst ℝ) (ys : List ℝ) : DiagEst ℝ :=
+  ys.foldl (fun e y => e.add y (g y)) e
+
+theorem feed_fields (g : ℝ → ℝ) (ys : List ℝ) (e : DiagEst ℝ) :
+    (feed g e ys).draw = e.draw.addAll ys ∧ (feed g e ys).grad = e.grad.addAll (ys.map g) ∧
+    (feed g e ys).drawBg = e.drawBg.addAll ys ∧ (feed g e ys).gradBg = e.gradBg.addAll (ys.map g) := by
+  induction ys generalizing e with
+  | nil => exact ⟨rfl, rfl, rfl, rfl⟩
+  | cons y ys ih =>
+    have h : feed g e (y :: ys) = feed g (e.add y (g y)) ys := rfl
+    rw [h]
+    obtain ⟨h1, h2, h3, h4⟩ := ih (e.add y (g y))
+    exact ⟨h1, h2, h3, h4⟩
+
+/-- `adapt` does nothing below three foreground samples. -/
+theorem adapt_none (e : DiagEst ℝ) (old : Scale ℝ) (h : e.draw.count < 3) : e.adapt old = none := by
+  simp [DiagEst.adapt, h]
+
+theorem lowerLimit_pos : (0 : ℝ) < lowerLimit := by norm_num [lowerLimit]
+theorem lowerLimit_le_upperLimit : (lowerLimit : ℝ) ≤ upperLimit := by norm_num [lowerLimit, upperLimit]
+
+/-- T5, general form: whenever the foreground estimators hold `≥ 3` draws (not all equal) and the
+    Gaussian gradients at these draws, `adapt` returns exactly the Gaussian's scale and mean. -/
+theorem adapt_exact_of_foreground (μ s : ℝ) (hs : 0 < s) (hl : lowerLimit ≤ s ^ 2) (hh : s ^ 2 ≤ upperLimit)
+    (x : ℝ) (xs : List ℝ) (hlen : 2 ≤ xs.length) (hne : ¬ ∀ y ∈ xs, y = x) (e : DiagEst ℝ)
+    (hd : e.draw = (RunVar.new : RunVar ℝ).addAll (x :: xs))
+    (hg : e.grad = (RunVar.new : RunVar ℝ).addAll ((x :: xs).map (fun y => -(y - μ) / s ^ 2)))
+    (old : Scale ℝ) :
+    e.adapt old = some { std := s, invStd := 1 / s, mean := μ } := by
+  have hc : ¬ e.draw.count < 3 := by
+    rw [hd, (mean_is_average x xs).2]; omega
+  simp only [DiagEst.adapt, if_neg hc]
+  rw [hd, hg]
+  exact congrArg some (gaussian_scale_exact μ s lowerLimit upperLimit hs hl hh x xs hne old none)
+
+/-- **T5**: initialise at `x0`, add the draws `ys` with their Gaussian gradients; with at least
+    three samples in total, not all equal, `adapt` recovers `(s, 1/s, μ)` exactly. -/
+theorem adapt_exact_on_gaussian (μ s : ℝ) (hs : 0 < s) (hl : lowerLimit ≤ s ^ 2) (hh : s ^ 2 ≤ upperLimit)
+    (x0 : ℝ) (ys : List ℝ) (hlen : 2 ≤ ys.length) (hne : ¬ ∀ y ∈ ys, y = x0) (old : Scale ℝ) :
+    let g : ℝ → ℝ := fun y => -(y - μ) / s ^ 2
+    (feed g ((DiagEst.new : DiagEst ℝ).init x0 (g x0)).1 ys).adapt old
+      = some { std := s, invStd := 1 / s, mean := μ } := by
+  intro g
+  obtain ⟨h1, h2, _, _⟩ := feed_fields g ys ((DiagEst.new : DiagEst ℝ).init x0 (g x0)).1
+  exact adapt_exact_of_foreground μ s hs hl hh x0 ys hlen hne _ h1 h2 old
+
+/-- with fewer than three samples (start point + fewer than two draws) `adapt` returns `none`. -/
+theorem adapt_none_below_three (g : ℝ → ℝ) (x0 : ℝ) (ys : List ℝ) (hlen : ys.length < 2) (old : Scale ℝ) :
+    (feed g ((DiagEst.new : DiagEst ℝ).init x0 (g x0)).1 ys).adapt old = none := by
+  apply adapt_none
+  obtain ⟨h1, _⟩ := feed_fields g ys ((DiagEst.new : DiagEst ℝ).init x0 (g x0)).1
+  rw [h1]
+  have : ((DiagEst.new : DiagEst ℝ).init x0 (g x0)).1.draw.addAll ys = (RunVar.new : RunVar ℝ).addAll (x0 :: ys) := rfl
+  rw [this, (mean_is_average x0 ys).2]; omega
+
+/-- T5 after a `switch`: the background samples become the foreground. -/
+theorem adapt_exact_of_background (μ s : ℝ) (hs : 0 < s) (hl : lowerLimit ≤ s ^ 2) (hh : s ^ 2 ≤ upperLimit)
+    (x : ℝ) (xs : List ℝ) (hlen : 2 ≤ xs.length) (hne : ¬ ∀ y ∈ xs, y = x) (e : DiagEst ℝ)
+    (hd : e.drawBg = (RunVar.new : RunVar ℝ).addAll (x :: xs))
+    (hg : e.gradBg = (RunVar.new : RunVar ℝ).addAll ((x :: xs).map (fun y => -(y - μ) / s ^ 2)))
+    (old : Scale ℝ) :
+    e.switch.adapt old = some { std := s, invStd := 1 / s, mean := μ } :=
+  adapt_exact_of_foreground μ s hs hl hh x xs hlen hne e.switch hd hg old
+
+/-- T5, a whole window: whatever was collected before (`e` arbitrary), after a `switch` the
+    background is empty; the draws `z :: zs` of the next window with their Gaussian gradients, then
+    the next `switch`, make `adapt` return `(s, 1/s, μ)` exactly. -/
+theorem adapt_exact_after_switch (μ s : ℝ) (hs : 0 < s) (hl : lowerLimit ≤ s ^ 2) (hh : s ^ 2 ≤ upperLimit)
+    (e : DiagEst ℝ) (z : ℝ) (zs : List ℝ) (hlen : 2 ≤ zs.length) (hne : ¬ ∀ y ∈ zs, y = z) (old : Scale ℝ) :
+    (feed (fun y => -(y - μ) / s ^ 2) e.switch (z :: zs)).switch.adapt old
+      = some { std := s, invStd := 1 / s, mean := μ } := by
+  obtain ⟨_, _, h3, h4⟩ := feed_fields (fun y => -(y - μ) / s ^ 2) (z :: zs) e.switch
+  exact adapt_exact_of_background μ s hs hl hh z zs hlen hne _ h3 h4 old
+
+/-- the scale produced by `init` is strictly positive (T8 at the limits used by the estimator). -/
+theorem init_positive (e : DiagEst ℝ) (pos grad : ℝ) :
+    0 < (e.init pos grad).2.std ∧ 0 < (e.init pos grad).2.invStd := by
+  obtain ⟨h1, h2, _⟩ := init_scale_positive pos grad ((1 : ℕ) : ℝ) lowerLimit upperLimit lowerLimit_pos
+    lowerLimit_le_upperLimit (by norm_num)
+  exact ⟨h1, h2⟩
+
+/-! ## T9: the algebra of the low-rank update (`spd_mean`), in an arbitrary ring -/
+
+section
+variable {R : Type*} [Ring R]
+
+/-- `spd_mean` of `src/transform/adapt/low_rank.rs`: with `S = B^{1/2}`, `Si = B^{-1/2}`,
+    `Q = (B^{1/2} A B^{1/2})^{1/2}`, the matrix `X = B^{-1/2} Q B^{-1/2}` solves `X B X = A`. -/
+theorem spd_mean_solves_riccati (S Si Q A : R) (h1 : S * Si = 1) (h2 : Si * S = 1)
+    (hQ : Q * Q = S * A * S) :
+    (Si * Q * Si) * (S * S) * (Si * Q * Si) = A := by
+  calc (Si * Q * Si) * (S * S) * (Si * Q * Si)
+      = Si * Q * (Si * S) * (S * Si) * Q * Si := by simp only [mul_assoc]
+    _ = Si * (Q * Q) * Si := by rw [h1, h2]; simp only [mul_one, mul_assoc]
+    _ = (Si * S) * A * (S * Si) := by rw [hQ]; simp only [mul_assoc]
+    _ = A := by rw [h1, h2, one_mul, mul_one]
+
+/-- for a Gaussian with covariance `Sig` (precision `P`), draws of covariance `C` have gradients
+    of covariance `G = P C P`; then `X = Sig` solves `X G X = C`, the equation the SPD mean of
+    `(C, G)` solves: the Gaussian's covariance is a fixed point of the low-rank update. -/
+theorem gaussian_is_fixed_point (Sig P C G : R) (h1 : Sig * P = 1) (h2 : P * Sig = 1)
+    (hG : G = P * C * P) :
+    Sig * G * Sig = C := by
+  calc Sig * G * Sig = (Sig * P) * C * (P * Sig) := by rw [hG]; simp only [mul_assoc]
+    _ = C := by rw [h1, h2, one_mul, mul_one]
+
+end
+
 end NutsModel.C08
+
+#print axioms NutsModel.C08.addAll_affine
+#print axioms NutsModel.C08.addAll_affine_new
+#print axioms NutsModel.C08.var_nonneg
+#print axioms NutsModel.C08.var_eq_zero_iff
+#print axioms NutsModel.C08.mean_is_average
+#print axioms NutsModel.C08.gaussian_scale_exact
+#print axioms NutsModel.C08.adapt_exact_of_foreground
+#print axioms NutsModel.C08.adapt_exact_on_gaussian
+#print axioms NutsModel.C08.adapt_none
+#print axioms NutsModel.C08.adapt_none_below_three
+#print axioms NutsModel.C08.adapt_exact_of_background
+#print axioms NutsModel.C08.adapt_exact_after_switch
+#print axioms NutsModel.C08.scale_stays_positive
+#print axioms NutsModel.C08.invalid_keeps_previous
+#print axioms NutsModel.C08.invalid_keeps_previous_draw_zero
+#print axioms NutsModel.C08.invalid_keeps_previous_grad_zero
+#print axioms NutsModel.C08.invalid_keeps_previous_neg
+#print axioms NutsModel.C08.init_scale_positive
+#print axioms NutsModel.C08.init_positive
+#print axioms NutsModel.C08.spd_mean_solves_riccati
+#print axioms NutsModel.C08.gaussian_is_fixed_point
